@@ -6,6 +6,9 @@ CONSTANTS
   WithRefresh = TRUE
   FixSessionWait = FALSE
   FixRefreshWait = FALSE
+  FixProcQuit = FALSE
+  NReq = 3
+  SessQCap = 1
   MaxRounds = 2
 CONSTRAINT RecordWindows
 POSTCONDITION AllWindowsReached
